@@ -2,31 +2,9 @@
   Lemmas about the DMR parser model (`PydapModel/Dmr.lean`).
 -/
 import PydapModel.Dmr
+import PydapModel.DmrSpec
 import Proofs.Hyperslab
 namespace Pydap.Dmr
-
-/-- a declared dimension of a variable: a reference to a named dimension (with the size that name
-    resolves to) or an anonymous extent -/
-inductive SDim where
-  | named (fq : Str) (size : Int)
-  | anon (size : Nat)
-
-def SDim.size : SDim → Int
-  | .named _ s => s
-  | .anon n => n
-
-/-- the key under which `get_named_dimensions` files a dimension referenced as `fq` -/
-def dimKey (fq : Str) : Str := if noSlashAfterFirst fq then fq.filter (· != '/') else fq
-
-/-- independent rendering of a `Dim` element -/
-def renderDim : SDim → XNode
-  | .named fq _ => .mk "Dim".toList [("name".toList, fq)] none []
-  | .anon n => .mk "Dim".toList [("size".toList, natDigits n)] none []
-
-def SDim.names : List SDim → List Str
-  | [] => []
-  | .named fq _ :: r => dimKey fq :: SDim.names r
-  | .anon _ :: r => SDim.names r
 
 theorem filter_dims (ds : List SDim) (post : List XNode) (hp : ∀ n ∈ post, n.tag ≠ "Dim".toList) :
     (ds.map renderDim ++ post).filter (·.tag == "Dim".toList) = ds.map renderDim := by
